@@ -192,3 +192,12 @@ claim(
     "abstract interpretation with exhaustive None-pattern enumeration and canonical predicate comparison; indicator-algebra gating check on one solver step; recorded-write typestate for detector rows",
     "DESIGN.md §5 C14",
 )
+
+claim(
+    "C34",
+    "other",
+    "Decides reduce_resolved_slices and make_symmetry_walls by abstract interpretation. The reduction touches slice endpoints only through comparisons, min/max, +- and halving of the validated even count, with independent axes apart from the drop flag, so it is interpreted per axis on every interval s0 < s1 in a window around two volumes for electric, magnetic and non-symmetric axes (every order type of the endpoints against volume start / plane / volume end, > 600 intervals): volume -> (0, end-plane); object -> [max(s0,plane), min(s1,end)) - plane; dropped exactly when empty (incl. ending on the plane); survivors record (s0-plane, s1-plane); other axes untouched; all 26 multi-axis tuples combine per-axis results; odd / < 2 counts rejected before the plane index is used, only on symmetric axes. Walls for all 27 tuples: a PEC wall exactly on each electric axis, cells 0..1 on its axis and the full reduced extent elsewhere (also with several walls), min direction, symmetry-wall flag, unique names. place_objects calls both only under config.has_symmetry and stores the unclipped extents. Physical mirror symmetry of the objects is not decided.",
+    TB + "; order-type exhaustiveness for comparison-only integer code; syntax-tree guard extraction",
+    "abstract interpretation with exhaustive order-type enumeration; decision table over the 27 symmetry tuples; syntax-tree guard rule",
+    "DESIGN.md §5 C34",
+)
